@@ -6,6 +6,14 @@ ids = [json.loads(l)["id"] for l in open(os.path.join(HERE, "properties.jsonl"))
 
 # pid -> (category, text, level_note, technique, design_ref)
 CLAIMS = {
+ "C01": ("other",
+         "Structural clauses of 'the image is the exact encoding': encoder rows and opcode table equal the ISA (with join_bits decided bit-exactly), the 25 alias-expansion rows equal the ISA alias table, the pc handed to label resolution is lc+1 of the lc then advanced by 1 and offsets are (addr-pc) as i16 of the same N, word_len agrees row by row with what write_directive appends (.stringz bytes then 0, .blkw n uninitialised words, .fill value or label address), and pass 1 binds labels to the location counter before the statement's own shift and sizes statements with the same word_len. Values held in run-time containers are not decided.",
+         "Trusted: rustc MIR, mirfacts, table extraction, spec/lc3_isa.json. Relies on C35 (Offset invariant) and C02 (guards).",
+         "table extraction from MIR vs hand-written ISA oracle; def-use provenance; sibling agreement", "5 C01"),
+ "C07": ("other",
+         "The disassembly table (try_disassemble_line) composed with the alias-expansion table (into_sim_instr) is the identity on every SimInstr variant and operand position (aliases by value: JMP R7<->RET, TRAP x20..x25<->names), offsets are never turned into labels, decode is attempted exactly for words >= x0200 and every other word becomes .fill new_trunc(word). The remaining links of the round trip are C06 (decode/encode), C36 (printer/parser), C03/C05 (tokens).",
+         "Composition argument over extracted tables; relies on C01, C06, C36, C03, C05; logos overlap resolution trusted.",
+         "sibling agreement of two tables extracted from MIR", "5 C07"),
  "C06": ("proof",
          "Encoder, decoder and opcode tables are extracted from the MIR of SimInstr::encode/decode/opcode and compared as sets of facts with the hand-written ISA table and with each other: same ranges, same constructor positions, types of the same width, and the decoder asserts/selects exactly the encoder's constant bits (decodes iff canonical; reserved opcode -> IllegalOpcode, assert failure -> InvalidInstrFormat). The leaf functions join_bits-closure and slice are decided in a bit-provenance abstract domain for every range occurring in the tables. Every obligation must be discharged.",
          "Trusted base: rustc MIR, mirfacts, the table extractor (rules/lib/tables.py), the bit domain transfer functions, spec/lc3_isa.json. Relies on the Offset invariant (C35) and on BR's cc being 3 bits.",
